@@ -34,10 +34,12 @@ BUDGET_S = {"quick": 75, "thorough": 900}
 def plan(tier):
     if tier == "quick":
         return [{"part": "hist", "n": 45, "i": i} for i in range(14)] + [{"part": "long", "datagrams": 70000, "seed": 1},
-                                                                         {"part": "fast", "steps": 105000, "dt": 9e-6, "seed": 1}]
+                                                                         {"part": "fast", "steps": 105000, "dt": 9e-6, "seed": 1},
+                                                                         {"part": "fast", "steps": 70000, "dt": 1.4e-5, "seed": 2, "idle_s": 1500, "spike": 2.5}]
     return [{"part": "hist", "n": 1500, "i": i} for i in range(8)] + \
            [{"part": "long", "datagrams": 215000, "seed": i} for i in range(8)] + \
-           [{"part": "fast", "steps": 150000, "dt": dt, "seed": i} for i, dt in enumerate([1e-5, 1e-6, 1e-4, 3e-6])]
+           [{"part": "fast", "steps": 150000, "dt": dt, "seed": i} for i, dt in enumerate([1e-5, 1e-6, 1e-4, 3e-6])] + \
+           [{"part": "fast", "steps": 70000, "dt": 1.4e-5, "seed": 10 + i, "idle_s": idle, "spike": 2.5} for i, idle in enumerate([1500, 4000])]
 
 
 tick = st.lists(st.tuples(st.sampled_from(["c", "s"]), scen.size_specs, st.sampled_from(scen.RETRIES)).map(list), min_size=0, max_size=2)
@@ -326,6 +328,12 @@ def fast_body(ctx, spec):
     with W.World(seed=spec["seed"], flavour="udp") as w:
         ch = w.connect_client()
         w.run(1.0, 0.017)
+        if spec.get("idle_s"):
+            # a long quiet session first (keep-alives only, both applications polling at 20 Hz), then the burst while the
+            # peer's datagrams are held up by a latency spike (so that the ack field does not move either)
+            ch.udp.setMessageTimeout(0.03)
+            w.run(spec["idle_s"], 0.05)
+            w.net.default_delay = spec.get("spike", 2.5)
         uid = 0
         dt = spec["dt"]
         ch.drain = 1
